@@ -380,8 +380,21 @@ func ruleF4(w *World, r *Report) {
 				}
 				return false
 			}
-			hit, _ := pathAvoiding(fn, nil, func(x ssa.Instruction) bool { return x == ssa.Instruction(c) }, isMk, nil)
-			dom := hit == nil && len(mks) > 0
+			// (explored with the values of each path, so that an error result assigned earlier
+			// and tested afterwards does not open a path that cannot be taken)
+			dom := len(mks) > 0
+			wk := &Walker{Fn: fn}
+			wk.OnInstr = func(env *Env, x ssa.Instruction, trail []*ssa.BasicBlock) bool {
+				if isMk(x) {
+					return true // copied: whatever is marked further on follows a copy
+				}
+				if x == ssa.Instruction(c) {
+					dom = false
+					return true
+				}
+				return false
+			}
+			wk.Run(nil, nil)
 			// the mark argument must be the function's own reclaimMark parameter
 			markOK := false
 			if p, isP := c.Common().Args[2].(*ssa.Parameter); isP && isLibType(p.Type(), "node") {
